@@ -119,6 +119,7 @@ class KernelModel:
         self.body = cl['ch'][0]
         self.captured = {c['local'] for c in cl.get('captures', [])}
         self.tags = {}          # local id -> tag string (NEW0, NEW1, OLD0, OLD1, OLDOPT, OLDIDX, END)
+        self.converted = set()  # tagged locals bound through a value conversion (cast / f64)
         self.problems = []
         params = cl['params']
         if k.idx:
@@ -161,13 +162,17 @@ class KernelModel:
                 self.seq[x['id']] = n[0]
             x['_seq'] = n[0]
 
-    def tag_of(self, e):
-        """Tag of the element an expression denotes, through coercions."""
+    def tag_of(self, e, strict=False):
+        """Tag of the element an expression denotes, through coercions.  `strict`: only through
+        coercions that keep the null (a null test applied to `v.cast()` / `v.f64()` does not test v:
+        NaN as i64 = 0)."""
         e = peel(e)
+        keep = ('IsNone::to_opt', 'Clone::clone', 'IsNone::as_opt') if strict else \
+            ('IsNone::unwrap', 'Number::f64', 'IsNone::to_opt', 'Clone::clone', 'Option::unwrap', 'Cast::cast',
+             'IsNone::as_opt')
         while True:
             if e.get('k') == 'MethodCall' and len(e['ch']) == 1 and \
-                    callee_is(e, 'IsNone::unwrap', 'Number::f64', 'IsNone::to_opt', 'Clone::clone',
-                              'Option::unwrap', 'Cast::cast', 'IsNone::as_opt'):
+                    callee_is(e, *keep):
                 e = peel(e['ch'][0])
                 continue
             if e.get('k') == 'Block' and e.get('unsafe') and not e.get('stmts') and 'expr' in e:
@@ -179,6 +184,8 @@ class KernelModel:
                 continue
             break
         if e.get('k') == 'Path' and e.get('res') == 'local':
+            if strict and e['local'] in self.converted:
+                return None         # bound from `v.cast()` / `v.f64()`: testing it does not test v
             return self.tags.get(e['local'])
         if e.get('k') == 'Field' and e.get('field') in ('0', '1'):
             b = peel(e['ch'][0])
@@ -265,6 +272,10 @@ class KernelModel:
             if t and self.tags.get(pat['local']) != t and t not in ('OLDOPT', 'OLDIDXOPT'):
                 self.tags[pat['local']] = t
                 ch = True
+            if t in ('NEW0', 'NEW1', 'OLD0', 'OLD1') and self.tag_of(init, strict=True) is None and \
+                    pat['local'] not in self.converted:
+                self.converted.add(pat['local'])
+                ch = True
             return ch
         if k == 'Tuple' and init.get('k') == 'Tup' and len(init['ch']) == len(pat['ch']):
             for p, x in zip(pat['ch'], init['ch']):
@@ -290,7 +301,7 @@ class KernelModel:
             return self.preds(cond['ch'][0], not positive)
         p = None
         if k == 'MethodCall' and len(cond['ch']) == 1:
-            t = self.tag_of(cond['ch'][0])
+            t = self.tag_of(cond['ch'][0], strict=True)
             if callee_is(cond, 'IsNone::not_none', 'Option::is_some'):
                 if t in ('NEW0', 'NEW1', 'OLD0', 'OLD1'):
                     p = ('VALID(%s)' % t, True)
